@@ -163,6 +163,28 @@ func buildC17(tier string, seed int64) *Family {
 		}
 		insts = keep
 	}
+	// builder-level damage (unknown function, unknown axis, missing required arguments)
+	// placed under every kind of parent node: the error must surface whatever wraps it
+	bases := []string{"N9 ( N1 )", "count ( )", "substring ( N1 )", "N9 :: N1", "N9 :: N1 / N2", "N2 / N9 :: N1"}
+	wraps := []string{"( X )", "( ( X ) )", "X / N8", "X | N8", "N8 | X", "count ( X )", "N8 [ X ]", "X = D7", "D7 = X", "- X", "( X ) [ D7 ]", "X or N8", "N8 and X",
+		"X + D7", "concat ( N8 , X )", "N8 [ X = S7 ]", "( X | N8 )", "( X ) / N8", "N8 [ D7 ] [ X ]", "not ( X )"}
+	for i, b := range bases {
+		for j, w := range wraps {
+			if tier != "thorough" && (i+j)%2 != 0 && j > 1 {
+				continue
+			}
+			if (w == "X / N8" || w == "( X ) / N8") && !strings.Contains(b, "::") {
+				continue // a function call followed by '/' is a different damage
+			}
+			in := rejectInst(strings.Replace(w, "X", b, 1), "nested-builder-damage")
+			in.Params["tokmax"] = "2"
+			if strings.HasPrefix(b, "N9 (") {
+				in.Params["notfunc"] = "N9"
+			}
+			insts = append(insts, in)
+		}
+	}
+	insts = dedupInst(insts)
 	can := rejectInst("N1 [ N2 ]", "canary valid template")
 	return &Family{
 		Instances: insts,
